@@ -6,8 +6,15 @@ def build(repo, tier, seed):
     syn, und = overload_c07.obligations(repo)
     t_syn, t_und = dataset_tower.tower_obligations(repo)
     b = classlaws.bundle(repo, tier, seed, ("C05", "L2"), classes=["Switch", "Overloaded"], bounded=False)
-    b["syntactic"] += syn + [x for x in t_syn if "base=" in x["name"]]
-    b["undecided"] += und + t_und
+    from . import interface_c07
+    from .common import fn_hashes
+    i_syn, i_und = interface_c07.obligations(repo)
+    b["syntactic"] += syn + [x for x in t_syn if "base=" in x["name"]] + i_syn
+    b["undecided"] += und + t_und + i_und
+    fns, hs = fn_hashes(repo, ["labrea.interface:Implementation.__init__", "labrea.interface:_build_overloads", "labrea.interface:_get_members"])
+    b["functions"] += fns
+    b["hashes"].update(hs)
+    b["group_hashes"]["Implementation:C07"] = hs
     from harness import dispatch_search
     wit, n = dispatch_search.search(seed, 60 if tier == "quick" else 1500)
     b["bounded"] = [{"what": "register/overload (single, list and stacked aliases)/evaluate histories against a table model (evaluations are distinct options, so never 'already stored'); "
@@ -23,5 +30,6 @@ def build(repo, tier, seed):
                          "from the CURRENT dispatch/lookup/default on every use, so a registration applies to every later evaluation; register writes exactly lookup[alias] under the instance "
                          "lock; Dataset.register/set_dispatch touch only the overload table; the callback is applied outside the switch (tower); no stale cross-dispatch value: L2 for "
                          "Switch/Overloaded puts the dispatch's keys into the fingerprint (outside region F18)",
-                         "bounded only: Dataset.overload decorator plumbing, interface()/implements()/Interface.__init__/Implementation.__init__ (metaclass code is outside the verifier's reach)"]
+                         "structural (AST) obligations on Implementation.__init__ and its helpers: every rejection (omitted abstract member, unknown member name) precedes the first registration and nothing can reject afterwards (group Implementation:C07)",
+                         "bounded only: Dataset.overload decorator plumbing, interface()/implements()/Interface.__init__ and which alias each member resolves to (metaclass code is outside the verifier's reach)"]
     return b
